@@ -14,7 +14,7 @@ import tempfile
 
 from sim import devices
 from sim.canon import Log, dec_table
-from sim.catalogue import RECIPES, NAMES
+from sim.catalogue import RECIPES, NAMES, cut_after_conflicts
 from sim.core import outcome, not_a_harness_bug
 from sim.devices import (SimSourceError, SimSourceAbort, SimDiskFull,
                          SOURCE_ERROR_KINDS)
@@ -84,6 +84,9 @@ def gen_case(rng, tier, g):
     if rec.stackable and rng.random() < 0.25:
         n2 = rng.choice(STACKABLE + ['sort', 'sort', 'distinct'])
         stack.append([n2, rng.randrange(len(RECIPES[n2].variants))])
+    # (Conflict sets: their text form depends on the interpreter's hash
+    # seed; nothing is built on them)
+    cut_after_conflicts(stack)
     nf = rng.randint(3, 5) if (rec.rect or rng.random() < 0.6) else None
     tables = [gen_table(rng, maxrows, minrows=0 if rng.random() < 0.1 else 2,
                         nfields=nf, ragged=False if rec.rect else None,
